@@ -50,6 +50,10 @@ type Event struct {
 	Reply  bool     `json:"reply,omitempty"`
 	Slow   bool     `json:"slow,omitempty"`
 	XLog   uint64   `json:"xlogpos,omitempty"`
+	// error-response only: the recovery fails: "getconn" = the manager has no connection for it,
+	// "identify" = the recovery connection is there and IDENTIFY_SYSTEM fails on it.  Unrecoverable: the
+	// client must stop (C17).
+	RecFail string `json:"rec_fail,omitempty"`
 	Inject []uint64 `json:"inject,omitempty"` // progress values put on the channel inside this receive
 	PClose bool     `json:"pclose,omitempty"` // progress channel closed inside this receive
 	// The connection dies silently at this message boundary: the fake connection still returns this
@@ -237,6 +241,9 @@ func (m *fakeMgr) get(start bool, lsn uint64) (conn.Conn, error) {
 		w.enter("getstart")
 	} else {
 		w.enter("getplain")
+		if w.pos > 0 && w.script[w.pos-1].Kind == "error-response" && w.script[w.pos-1].RecFail == "getconn" {
+			return nil, errors.New("scripted: no connection for the recovery") // an input, not logged
+		}
 	}
 	fresh := w.cur == nil || w.cur.closed
 	if fresh {
@@ -314,6 +321,9 @@ func (c *fakeConn) IdentifySystem(context.Context) (pglogrepl.IdentifySystemResu
 		return pglogrepl.IdentifySystemResult{}, errors.New("case abandoned")
 	}
 	c.w.enter("identify")
+	if c.w.script[c.w.pos-1].RecFail == "identify" {
+		return pglogrepl.IdentifySystemResult{}, errors.New("scripted: IDENTIFY_SYSTEM failed") // an input, not logged
+	}
 	c.w.log = append(c.w.log, Obs{K: "identify"})
 	return pglogrepl.IdentifySystemResult{XLogPos: pglogrepl.LSN(c.w.script[c.w.pos-1].XLog)}, nil
 }
@@ -521,6 +531,9 @@ func evGallina(e Event) string {
 	case "other-err":
 		return "EOtherErr"
 	case "error-response":
+		if e.RecFail != "" {
+			return fmt.Sprintf("(EErrorResponseFail %s)", core.GBool(e.RecFail == "identify"))
+		}
 		return fmt.Sprintf("(EErrorResponse %s)", core.GN(e.XLog))
 	case "copy-other":
 		return "ECopyOther"
@@ -784,7 +797,7 @@ func monitor(c Case, log []Obs) []core.Violation {
 				e := script[k]
 				// (an error result of a connection that died at this boundary reports IsClosed(): for the
 				// client that is "connection was closed, continue", exactly like closed-err)
-				if (e.Kind == "other-err" && !e.Dies) || e.Kind == "unexpected" || (e.Kind == "keepalive-bad" && k > 0) {
+				if (e.Kind == "other-err" && !e.Dies) || e.Kind == "unexpected" || (e.Kind == "keepalive-bad" && k > 0) || (e.Kind == "error-response" && e.RecFail != "") {
 					fatalSeen, fatalAt = e.Kind, k
 				}
 				register(e.Inject, e.PClose)
@@ -810,7 +823,7 @@ func monitor(c Case, log []Obs) []core.Violation {
 				if e.Kind == "xlog" && e.X == "commit" && e.Wal > maxCommit {
 					maxCommit = e.Wal
 				}
-				if e.Kind == "error-response" {
+				if e.Kind == "error-response" && e.RecFail == "" {
 					maxCommit = e.XLog
 				}
 				if e.Kind == "xlog" && e.X == "begin" {
@@ -1173,6 +1186,9 @@ func genSoup(rng *rand.Rand) Case {
 			e = Event{Kind: "closed-err"}
 		case r < 14:
 			e = Event{Kind: "error-response", XLog: wal + uint64(rng.Intn(500))}
+			if rng.Intn(5) == 0 {
+				e.RecFail = []string{"getconn", "identify"}[rng.Intn(2)]
+			}
 		case r < 15:
 			e = Event{Kind: "nil"}
 		case r < 16:
